@@ -523,6 +523,7 @@ type teletextPageBuffer struct {
 	donePages      []*teletextPage
 	magazineNumber uint8
 	pageNumber     int
+	pendingM29     map[uint8]uint32 // indexed by magazine number, until the page is known
 	receiving      bool
 }
 
@@ -652,6 +653,14 @@ func (b *teletextPageBuffer) parsePacket(i []byte, magazineNumber, packetNumber 
 			b.parsePacket28And29(i[1:], packetNumber, designationCode)
 		} else if magazineNumber == b.magazineNumber && packetNumber == 29 {
 			b.parsePacket28And29(i[1:], packetNumber, designationCode)
+		} else if b.magazineNumber == 0 && b.pageNumber == 0 && packetNumber == 29 {
+			// No page has been picked yet: this designation applies if the page turns out to be in this magazine
+			if designationCode == 0 || designationCode == 4 {
+				if b.pendingM29 == nil {
+					b.pendingM29 = make(map[uint8]uint32)
+				}
+				b.pendingM29[magazineNumber] = teletextHamming2418Data(i[1], i[2], i[3])
+			}
 		} else if magazineNumber == 8 && packetNumber == 30 {
 			b.parsePacket30(i, designationCode)
 		}
@@ -692,6 +701,10 @@ func (b *teletextPageBuffer) parsePacketHeader(i []byte, magazineNumber uint8, t
 		if subtitleFlag {
 			b.magazineNumber = magazineNumber
 			b.pageNumber = pageNumber
+			if triplet, ok := b.pendingM29[magazineNumber]; ok {
+				b.cd.setTripletM29(triplet)
+			}
+			b.pendingM29 = nil
 			log.Printf("astisub: no teletext page specified, using page %d%.2x", b.magazineNumber, b.pageNumber)
 		}
 	}
